@@ -129,6 +129,20 @@ func (g *gate) release(gi int) {
 	}
 }
 
+// clearWaiting: if the goroutine passed sc:wait without being held (it went into the real wait), forget
+// that mark and report true -- atomically, so that a goroutine that has meanwhile parked at its next
+// point is not released from there.
+func (g *gate) clearWaiting(gi int) bool {
+	g.mu.Lock()
+	defer g.mu.Unlock()
+	if g.at[gi] == "sc:wait" && g.parked[gi] == nil {
+		delete(g.at, gi)
+		delete(g.typ, gi)
+		return true
+	}
+	return false
+}
+
 func (g *gate) openAll() {
 	g.mu.Lock()
 	g.open = true
@@ -263,12 +277,19 @@ func Replay(s Schedule) (Obs, []Step, error) {
 			o.Drift = fmt.Sprintf("step %d: g%d is not parked", idx+1, st.G)
 			break
 		}
-		at0, _ := g.where(st.G)
-		at := at0
-		if st.A != "waitdone" || at0 == "sc:wait" {
+		var at string
+		if st.A != "waitdone" {
 			g.release(st.G)
 			at = waitAt(st.G, 15*time.Second)
-		} // else: its wait was over already and it moved on to its next point by itself
+		} else if g.clearWaiting(st.G) {
+			at = waitAt(st.G, 15*time.Second) // it is (or was) in the real wait: its next point follows
+		} else {
+			at, _ = g.where(st.G) // its wait was over already and it moved on to its next point by itself
+			if at == "sc:wait" {  // held at the gate (the schema was initialised when it arrived)
+				g.release(st.G)
+				at = waitAt(st.G, 15*time.Second)
+			}
+		}
 		ok := false
 		for _, x := range arrive[st.A] {
 			if x == at {
